@@ -28,6 +28,25 @@ type plan struct {
 	short  bool   // short read / short write instead of a hard failure
 	counts map[string]int
 	fired  bool
+	// gate (scopyq): called once, before the gateAt-th (from 0) Read of the source reader, or before that
+	// reader's Close when fewer reads were made
+	gate   func()
+	gateAt int
+	gated  bool
+}
+
+// runGate calls the gate once.
+func (p *plan) runGate() {
+	p.mu.Lock()
+	g := p.gate
+	if p.gated {
+		g = nil
+	}
+	p.gated = true
+	p.mu.Unlock()
+	if g != nil {
+		g()
+	}
 }
 
 func newPlan(sizes []int, stage string, k int, short bool) *plan {
@@ -134,6 +153,9 @@ type faultReader struct {
 }
 
 func (r *faultReader) Read(b []byte) (int, error) {
+	if r.p.gate != nil && r.n == r.p.gateAt {
+		r.p.runGate()
+	}
 	limit := len(b)
 	if r.n < len(r.p.sizes) && r.p.sizes[r.n] < limit {
 		limit = r.p.sizes[r.n]
@@ -151,6 +173,9 @@ func (r *faultReader) Read(b []byte) (int, error) {
 
 // Close: a failing Close has closed the underlying stream.
 func (r *faultReader) Close() error {
+	if r.p.gate != nil {
+		r.p.runGate()
+	}
 	fail := r.p.hit("closeReader")
 	err := r.inner.Close()
 	if fail {
